@@ -16,17 +16,22 @@ NAMECODES = Codes()
 # universes
 
 
-def mk_universe(lengths, letters="abcde", typed=False, int_dims=()):
-    """dimension universe: letter -> dict(letter, name, items)"""
+def mk_universe(lengths, letters="abcde", typed=False, int_dims=(), falsy=False):
+    """dimension universe: letter -> dict(letter, name, items); with falsy=True the integer dimensions start at the item 0
+    and the last text dimension starts with the empty string (items that are false in a boolean context)"""
     names = {"a": "alpha", "b": "beta", "c": "gamma", "d": "delta", "e": "epsilon", "t": "time",
              "p": "place", "r": "region", "m": "material", "g": "good"}
     uni = {}
     for l, n in zip(letters, lengths):
         if l in int_dims:
-            items = [2000 + 5 * i for i in range(n)]
+            items = [(0 if falsy else 2000) + 5 * i for i in range(n)]
         else:
             items = [f"{l}{i}" for i in range(n)]
         uni[l] = dict(letter=l, name=names.get(l, l + "dim"), items=items)
+    if falsy:
+        text = [l for l in uni if l not in int_dims]
+        if text:
+            uni[text[-1]]["items"][0] = ""
     return uni
 
 
